@@ -15,7 +15,7 @@ func TestBoot(t *testing.T) {
 	if err != nil {
 		t.Fatal(err)
 	}
-	if err := w.Sys.CreateLedger(ctx, "l1", ledger.Configuration{}); err != nil {
+	if err := w.CreateLedger(ctx, "l1", ledger.Configuration{}); err != nil {
 		t.Fatal(err)
 	}
 	t.Log("skipped:", w.PG.SkippedInMigration)
